@@ -2,9 +2,11 @@
 """Behaviour-preserving refactors written by independent sub-agents: confirm (suite unchanged) and run every
 claimed check against each.  A report is a false alarm unless the refactor turns out not to preserve behaviour.
 
-usage: refactor_eval.py <worktree> <property id>          evaluate seeds/{A,B,C}.diff of a sub-agent worktree and
-                                                        keep them under /verif/refactors/<id>-<letter>/
+usage: refactor_eval.py <worktree> <property id> [dest]   evaluate seeds/{A,B,C}.diff of a sub-agent worktree and
+                                                        keep them under /verif/<dest>/<id>-<letter>/ (dest: refactors
+                                                        (default) or features - property-preserving enhancements)
        refactor_eval.py --rerun [name-part ...]          re-run the checks on everything kept under /verif/refactors
+                                                        and /verif/features
 """
 import json, os, shutil, subprocess, sys, glob
 from concurrent.futures import ThreadPoolExecutor
@@ -55,7 +57,8 @@ def suite(cwd):
 
 
 def rerun(parts):
-    dirs = [d for d in sorted(glob.glob(os.path.join(VERIF, "refactors", "*"))) if os.path.exists(os.path.join(d, "patch.diff"))]
+    dirs = [d for base in ("refactors", "features") for d in sorted(glob.glob(os.path.join(VERIF, base, "*")))
+            if os.path.exists(os.path.join(d, "patch.diff"))]
     if parts:
         dirs = [d for d in dirs if any(p in os.path.basename(d) for p in parts)]
 
@@ -80,6 +83,7 @@ def main():
     if sys.argv[1] == "--rerun":
         return rerun(sys.argv[2:])
     wt, prop = sys.argv[1:3]
+    dest_base = sys.argv[3] if len(sys.argv) > 3 else "refactors"
     for letter in "ABC":
         diff = os.path.join(wt, "seeds", "%s.diff" % letter)
         if not os.path.exists(diff):
@@ -92,8 +96,8 @@ def main():
         sh("git checkout -- .", wt)
         base = os.path.basename(wt.rstrip("/"))
         rnd = base[:-len(prop)] if base.lower().endswith(prop.lower()) else ""
-        name = "%s%s-%s" % ((rnd + "-") if rnd and rnd != "rf" else "", prop.lower(), letter)
-        dst = os.path.join(VERIF, "refactors", name)
+        name = "%s%s-%s" % ((rnd + "-") if rnd and rnd not in ("rf", "ft") else "", prop.lower(), letter)
+        dst = os.path.join(VERIF, dest_base, name)
         os.makedirs(dst, exist_ok=True)
         shutil.copy(diff, os.path.join(dst, "patch.diff"))
         md = os.path.join(wt, "seeds", "%s.md" % letter)
